@@ -36,8 +36,19 @@ def gen(rnd):
     cfg = {"hermitian": herm, "carrier": carrier, "designation": desig, "sizes": sizes, "offenders": []}
     feature = rnd.choice(["none", "none", "offdiag", "offdiag", "offdiag-unknown", "zero-diagonal", "fd-blocks", "fd-dict-ok", "fd-asymmetric", "fd-not-array",
                           "fd-degenerate", "fd-bare", "not-orthonormal", "pairs", "custom-solver", "custom-solver+fd", "legacy-solver",
-                          "shared-eigenvalue", "shared-eigenvalue-rounding", "nonhermitian-symbolic-term", "implicit-fd-last", "kpm-nonhermitian"])
+                          "shared-eigenvalue", "shared-eigenvalue-rounding", "nonhermitian-symbolic-term", "implicit-fd-last", "kpm-nonhermitian",
+                          "shared-eigenvalue-second-order", "fd-dict-multi", "fd-dict-multi"])
     cfg["feature"] = feature
+    if feature == "shared-eigenvalue-second-order":
+        # two blocks that share an energy and are coupled only through a third one: their coupling first appears at second order
+        cfg["sizes"] = sizes = [rnd.randint(1, 2) for _ in range(3)]; N = 3
+        if desig == "implicit": cfg["designation"] = "indices"
+    if feature == "fd-dict-multi":
+        # masks for several blocks in one dictionary, in any insertion order, the defective one (if any) at any position
+        N = rnd.choice([2, 3, 3]); cfg["sizes"] = sizes = [2] * N
+        if desig == "implicit": cfg["designation"] = desig = "indices"
+        order = list(range(N)); rnd.shuffle(order); order = order[:rnd.randint(2, N)]
+        cfg["multi"] = {"blocks": order, "defect": rnd.choice(["none", "asymmetric", "asymmetric", "not-array", "degenerate"]), "pos": rnd.randrange(len(order))}
     if feature in ("offdiag", "offdiag-unknown") and N >= 2:
         k = rnd.choice([1, 1, 2]); pairs = list(itertools.permutations(range(N), 2)); rnd.shuffle(pairs)
         cfg["offenders"] = [p for p in pairs[:k]]
@@ -72,7 +83,23 @@ def build(cfg, rnd):
         a, b = off[0], off[1]; H0[a, a] = 0.1 + 0.2; H0[b, b] = 0.3; H1[a, b] = H1[b, a] = 1.0; late = "shared"
         for c in range(d):
             if c not in (a, b) and abs(H0[c, c] - 0.3) < 1: H0[c, c] += 5
+    if feature == "shared-eigenvalue-second-order":
+        a, m_, b = off[0], off[1], off[2]; H0[b, b] = H0[a, a]
+        for i in range(off[0], off[1]):
+            for j in range(off[2], off[3]): H1[i, j] = H1[j, i] = 0.0          # no direct coupling between blocks 0 and 2
+        H1[a, m_] = H1[m_, a] = 1.0; H1[m_, b] = H1[b, m_] = 1.0; late = "shared2"
     # ---- fully_diagonalize
+    if feature == "fd-dict-multi":
+        fd = {}; mfs = []
+        for pos, blk in enumerate(cfg["multi"]["blocks"]):
+            a = off[blk]; mask = np.array([[False, True], [True, False]]); defect = cfg["multi"]["defect"] if pos == cfg["multi"]["pos"] else "none"
+            mf = {"block": blk, "is_array": True, "symmetric": True, "eliminates_degenerate": False}
+            if defect == "asymmetric": mask = np.array([[False, True], [False, False]]) if rnd.random() < 0.5 else np.array([[False, False], [True, False]]); mf["symmetric"] = False
+            if defect == "degenerate": H0[a + 1, a + 1] = H0[a, a]; mf["eliminates_degenerate"] = True
+            val = mask
+            if defect == "not-array": val = mask.tolist(); mf["is_array"] = False
+            fd[blk] = val; mfs.append(mf)
+        kw["fully_diagonalize"] = fd; facts["fd"] = {"kind": "dict", "masks": mfs}
     big = max(range(N), key=lambda i: sizes[i])
     if feature == "fd-blocks":
         sel = [b for b in range(N) if rnd.random() < 0.6]; kw["fully_diagonalize"] = tuple(sel); facts["fd"] = {"kind": "blocks", "blocks": sel}
@@ -173,9 +200,19 @@ def main(seed, ncases, driver, out):
             continue
         except Exception as e:
             first_err = e
+        if late == "shared2" and first_err is None:
+            try: U[0, 2, 2]
+            except Exception as e: first_err = e
         if late is not None:
             if first_err is None: failures.append(dict(desc, kind="ill-posed-input-answered", expected=f"ValueError at first need ({late})"))
             elif not isinstance(first_err, ValueError): failures.append(dict(desc, kind="wrong-exception-type", error=type(first_err).__name__ + ": " + str(first_err)[:120]))
+            elif late == "shared2":
+                answered = []
+                for (S, nm) in ((U, "U"), (Ud, "U_inv")):
+                    for idx in ((0, 2, 2), (2, 0, 2)):
+                        try: S[idx]; answered.append(nm + str(list(idx)))
+                        except Exception: pass
+                if answered: failures.append(dict(desc, kind="ill-posed-input-answered-after-a-rejected-request", answered=answered))
             elif late == "shared":
                 # the rejection must stay a rejection: the same and other requests that need the pair, made after the failure,
                 # must fail again (a fresh computation would) — never return a value computed with resonant denominators dropped
